@@ -69,6 +69,11 @@ static void gen_format(vprng_t *r, struct fmtdesc *f)
 		if (vp_chance(r, 1, 2) && f->nseg < MAXSEG) { struct seg *s2 = &f->s[f->nseg++]; s2->lit = 1; gen_literal(r, s2->text, 10); }
 		f->judged = 0; strcpy(cls, "unknown-or-incomplete-directive");
 	}
+	/* a format that ends in a literal newline (targets strip it): content not judged, termination and bounds are */
+	if (kind >= 7 && kind <= 9 && f->nseg < MAXSEG) {
+		struct seg *s = &f->s[f->nseg++]; s->lit = 1; gen_literal(r, s->text, 12); size_t l = strlen(s->text); s->text[l] = '\n'; s->text[l + 1] = 0;
+		f->judged = 0; strcpy(cls, "trailing-newline-literal");
+	}
 	size_t o = 0;
 	for (int i = 0; i < f->nseg; i++) {
 		struct seg *s = &f->s[i];
@@ -232,6 +237,7 @@ static void gen_msg(vprng_t *r, char *m, size_t limit, int *has_nl)
 	if (n > 0 && vp_chance(r, 1, 10)) { m[n - 1] = '\n'; *has_nl = 1; }
 }
 
+static long n_limit_at_end;
 static void direct_case(long kase)
 {
 	vprng_t r; vp_seed(&r, vp.seed, (uint64_t)kase);
@@ -252,6 +258,14 @@ static void direct_case(long kase)
 	cs.function = s.function; cs.filename = s.filename; cs.format = "%s"; cs.priority = s.priority; cs.lineno = s.lineno; cs.tags = s.tags;
 	struct timespec ts = { (time_t)(vp_u(&r, 2000000000u)), (long)vp_u(&r, 1000000000u) };
 	static char m[8000]; int has_nl; gen_msg(&r, m, limit, &has_nl);
+	/* in a quarter of the cases the limit is put right where this line ends (full length -1 .. +3): every way of a line
+	 * meeting its limit, whatever the last thing written is (literal, padded field, message, stripped newline) */
+	if (vp_chance(&r, 1, 4)) {
+		static char probe[20000]; ref_cap = sizeof probe - 2;
+		size_t fl = ref_format(&F, &s, &ts, m, cur_tagfn, probe, sizeof probe);
+		size_t nl = fl + vp_u(&r, 5); nl = nl > 0 ? nl - 1 : 1; if (nl < 1) nl = 1; if (nl > 8000) nl = 8000;
+		if (qb_log_ctl(T, QB_LOG_CONF_MAX_LINE_LEN, (int32_t)nl) == 0) { limit = nl; n_limit_at_end++; char *fh2 = hdup(F.text); qb_log_format_set(T, fh2); free(fh2); }
+	}
 	char *mh = hdup(m);
 	char *out = malloc(limit);
 	memset(out, 0x5a, limit);
@@ -424,6 +438,7 @@ int main(int argc, char **argv)
 	vp_count("lines_judged", n_judged); vp_count("lines_equal_to_reference", n_equal); vp_count("safety_only_cases", n_safety_only);
 	vp_count("truncated_lines", n_trunc); vp_count("ellipsis_seen", n_ellipsis); vp_count("log_calls", n_calls);
 	vp_count("custom_logger_deliveries", n_delivered); vp_count("file_lines_read", n_file_lines); vp_count("limits_rejected_by_ctl", n_ctl_rejected);
+	vp_count("limit_placed_at_line_end", n_limit_at_end);
 	vp_finish();
 	return 0;
 }
